@@ -12,7 +12,12 @@ for d in sorted(os.listdir(os.path.join(VERIF, "seeded"))):
     caught = [c for c, v in m["checks"].items() if v["caught"]]
     concrete = [c for c, v in m["checks"].items() if v["with_failing_input"]]
     summ = (m.get("summary") or "").replace("|", "/").replace("\n", " ")
-    rows.append(f"| {d} | {summ[:170]} | {', '.join(caught) or '**missed**'} | {', '.join(concrete) or '-'} |")
+    demo_with = (m.get("verified_by_me") or {}).get("demo_exit_with_change")
+    if not caught and demo_with == 0:
+        verdict = "no longer a violation (its demonstration passes with the change applied, see the note in meta.json)"
+    else:
+        verdict = ", ".join(caught) or "**missed**"
+    rows.append(f"| {d} | {summ[:170]} | {verdict} | {', '.join(concrete) or '-'} |")
 print("| seed | change | caught by (quick tier) | with a concrete failing input |")
 print("|---|---|---|---|")
 print("\n".join(rows))
